@@ -1,12 +1,11 @@
 use bc_envelope::prelude::*;
 fn main() {
-    let e = Envelope::new("Alice").add_assertion("knows", "Bob");
-    let x = e.compress_subject().unwrap();
-    println!("x = {}", x.format_flat());
-    let cx = x.compress().unwrap();
-    println!("cx = {}", cx.format_flat());
-    let u = cx.uncompress().unwrap();
-    println!("u = {}", u.format_flat());
-    println!("identical {} ; bytes eq {}", u.is_identical_to(&x), u.tagged_cbor().to_cbor_data()==x.tagged_cbor().to_cbor_data());
-    println!("{}\n{}", hex::encode(u.tagged_cbor().to_cbor_data()), hex::encode(x.tagged_cbor().to_cbor_data()));
+    let e = Envelope::try_from_cbor_data(hex::decode("d8c883d8c9714d4b353439392e312e656339333262383182a106d8c9d99d7540a10fd8c9d99c524c467c769ffc8fa1719edb176082a108d8c9fb3ddb7cdfd9d7bdbba1d8c9714d4b353439392e322e6439383737333861d8c9714d4b353439392e332e3462383966653938").unwrap()).unwrap();
+    println!("{}", e.format_flat());
+    let r = std::panic::catch_unwind(|| Envelope::sskr_join(&[&e]).is_ok());
+    println!("join: {:?}", r.is_ok());
+    // minimal
+    let m = Envelope::new("x").add_assertion(known_values::SSKR_SHARE, dcbor::CBOR::to_tagged_value(40309u64, dcbor::CBOR::to_byte_string([])));
+    let r = std::panic::catch_unwind(|| Envelope::sskr_join(&[&m]).is_ok());
+    println!("minimal join panics: {:?}", r.is_err());
 }
